@@ -158,8 +158,11 @@ def run_property(prop, tier, seed, workdir, evid_path, t0, only):
                 g.unwindset = uw
                 if g.loop_contracts:
                     g.no_unwind_funcs = tuple(set(g.no_unwind_funcs) | set(k for k, v in m.CONTRACTS.items() if v.get('loops')))
-                if tier == 'quick' and g.tier == 'thorough':
+                if tier == 'quick' and g.tier in ('thorough', 'deep') and only is None:
                     skipped.append(un + '.' + g.name)
+                elif g.tier == 'deep' and only is None and not os.environ.get('VERIF_DEEP'):
+                    # hours per case: run only on request (VERIF_DEEP=1 ./check <id> --tier thorough); the recorded run is in evidence_archive/
+                    skipped.append(un + '.' + g.name + ' (deep tier: VERIF_DEEP=1)')
                 else:
                     run_gs.append(g)
             print('[%s] unit %s: %d groups (%d skipped in %s tier), %d functions extracted from %d files' %
@@ -248,7 +251,7 @@ def run_property(prop, tier, seed, workdir, evid_path, t0, only):
             names = set(m.PROPERTIES.get(prop, []))
             sel = [mu['name'] for mu in getattr(m, 'MUTANTS', []) if set(mu['groups']) & names]
             # mutants of thorough-only groups (10-60 min per case) are not re-run inside the check: tools/mutants.py <unit> <name> (results in DESIGN 13.12)
-            slow_groups = set(g.name for g in m.GROUPS if g.tier == 'thorough')
+            slow_groups = set(g.name for g in m.GROUPS if g.tier in ('thorough', 'deep'))
             if not os.environ.get('VERIF_ALL_MUTANTS'):
                 slow = [mu['name'] for mu in getattr(m, 'MUTANTS', []) if mu['name'] in sel and set(mu['groups']) & slow_groups]
                 sel = [x for x in sel if x not in slow]
